@@ -252,6 +252,22 @@ example :
     (chunkedGrab catMerge (outsOfDescs 0 ds) 128 4 [0, 2, 3, 1]).res = .ok ⟨some [1, 2], 2, [1, 2]⟩ := by
   decide
 
+/-! ### units -/
+
+/-- The merged value of a stack whose sources report it in different units (`unitSum`: finest
+factor, sum converted to it) depends on the multiset of the successful sources' `(factor, value)`
+pairs only — not on their command-line order, hence not on which failing sources stand between
+them or on the completion order. -/
+theorem unit_sum_order_independent (l l' : List (Nat × Nat)) (h : l.Perm l') : unitSum l = unitSum l' := by
+  unfold unitSum
+  rw [minFactor_perm h]
+  cases minFactor l' with
+  | none => rfl
+  | some m => simp only [convertedSum_perm m h]
+
+-- [ms 5, ns 7] and [ns 7, ms 5] both give 5·10⁶ + 7 ns
+example : unitSum [(1000000, 5), (1, 7)] = (1, 5000007) ∧ unitSum [(1, 7), (1000000, 5)] = (1, 5000007) := by decide
+
 /-! ### non-vacuity: the hypotheses are met by a non-trivial instance, and the barrier matters -/
 
 -- `MergeSpec` is satisfiable by an order-SENSITIVE merge (concatenation: the free monoid)
